@@ -1,12 +1,34 @@
 (* Model of /repo/mapset/mapset.go: definitions only.
 
-   A Go map[T]struct{} is [gomap] = option (list T): None is the nil map, Some l an allocated
-   map whose keys are l (kept duplicate-free by [m_set]).  The order of l is NOT the iteration
-   order: every `for … := range m` takes the order the runtime chose as an extra argument [ord],
-   which [m_range] accepts iff it is a duplicate-free enumeration of exactly the keys (the Go
-   specification of map iteration) and otherwise answers [BadOrder].  Early exits, the choice of
-   the smaller operand and all nil tests are the conditions of the Go source, regenerated into
-   Gen/MapsetFacts.v on every run.  Writing to a nil map is the explicit result [PanicNilMap]. *)
+   A Go map[T]struct{} is [gomap] = option (positive * list T): None is the nil map, Some (p, l)
+   the map allocated at address p whose keys are l (kept duplicate-free by [m_set]).  A Go map
+   value IS a pointer, so the address travels with the value exactly as in Go: [m_make] and
+   [maps_clone] take the fresh address from the allocator, every other built-in keeps the address
+   of the map it works on.  Two values alias iff they carry the same address; histories never
+   put one address into two variables (MapsetProofsId.ids_ok, a theorem), which is what makes
+   carrying the keys next to the address sound.  The one place where a call sees the same map
+   twice (s.RemoveAll(s): deleting from the map being ranged over) is modelled with the Go rule
+   for it (an entry removed before it is reached is not produced).
+
+   The order of l is NOT the iteration order: every `for … := range m` takes the order the runtime
+   chose as an extra argument [ord], which [m_range] accepts iff it is a duplicate-free enumeration
+   of exactly the keys (the Go specification of map iteration) and otherwise answers [BadOrder].
+
+   What is regenerated from the Go source into Gen/MapsetFacts.v on every run:
+   - every condition (early exits, nil tests, smaller-operand choices), every boolean constant
+     returned, index/slice bounds: used as the conditions of this model;
+   - which expression every `return`/assignment of a map hands on (receiver, argument, fresh map):
+     used through [ret1]/[ret2], so the address a function returns is the one the source returns;
+   - how many times make/clear/delete/append/maps.Clone/out.Add are called: used through [called];
+   - the rest of each statement skeleton: for the mutators (Clear, Add, add, AddAll, Remove,
+     RemoveAll, Pop) the whole statement structure as one number (<fn>_shape: one hexadecimal digit
+     per statement, 1 if 3 range 4 return 5 assignment 6 expression statement 7 break 9 declaration
+     e '{' f '}'), so that a new guard around a delete, a dropped break or a moved statement is
+     noticed; for all functions what is ranged over, what is deleted from what, what is looked
+     up, which helper gets which argument, that no further len() is consulted: checked by
+     the tripwire lists [<fn>_tw] through [guarded]: if one differs from what this hand-written
+     skeleton assumes the function answers [Unmodelled], which every theorem excludes.
+   Writing to a nil map is [PanicNilMap], ranging over a nil iterator function [PanicNilFunc]. *)
 From Coq Require Import ZArith List Bool.
 Import ListNotations.
 From Mds Require Import Gen.MapsetFacts.
@@ -16,48 +38,110 @@ Inductive res (A : Type) : Type :=
 | Ok (a : A)
 | PanicNilMap      (* assignment to an entry of a nil map *)
 | PanicIndex       (* slice index/bounds out of range *)
-| BadOrder.        (* the iteration order handed in is not an enumeration of the map's keys *)
+| PanicNilFunc     (* call of a nil function value (range over a nil iter.Seq) *)
+| BadOrder         (* the iteration order handed in is not an enumeration of the map's keys *)
+| Unmodelled.      (* the statement skeleton of the source is not the one this model was written for *)
 Arguments Ok {A} a.
 Arguments PanicNilMap {A}.
 Arguments PanicIndex {A}.
+Arguments PanicNilFunc {A}.
 Arguments BadOrder {A}.
+Arguments Unmodelled {A}.
 
 Definition bind {A B : Type} (r : res A) (f : A -> res B) : res B :=
-  match r with Ok a => f a | PanicNilMap => PanicNilMap | PanicIndex => PanicIndex | BadOrder => BadOrder end.
+  match r with
+  | Ok a => f a
+  | PanicNilMap => PanicNilMap | PanicIndex => PanicIndex | PanicNilFunc => PanicNilFunc
+  | BadOrder => BadOrder | Unmodelled => Unmodelled
+  end.
 
 (* [called n yes no]: the statement containing a call that occurs n times in the source (n read
    from the source): performed when n = 1, skipped otherwise. *)
 Definition called {A : Type} (n : Z) (yes no : A) : A := if Z.eqb n 1 then yes else no.
+
+(* [ret1 f a] / [ret2 f a b]: f is the generated reading of an expression of the source as a
+   function of the one/two things it may denote (probed with 1 and 2); the model hands on that
+   one, and does not know what to do when the expression is neither. *)
+Definition ret1 {A : Type} (f : Z -> Z) (a : res A) : res A := if Z.eqb (f 1) 1 then a else Unmodelled.
+Definition ret2 {A : Type} (f : Z -> Z -> Z) (a b : res A) : res A :=
+  if Z.eqb (f 1 2) 1 then a else if Z.eqb (f 1 2) 2 then b else Unmodelled.
+
+(* tripwires: (what the source says, what this skeleton assumes) *)
+Definition b2z (b : bool) : Z := if b then 1 else 0.
+Definition intact (tw : list (Z * Z)) : bool := forallb (fun p => Z.eqb (fst p) (snd p)) tw.
+Definition guarded {A : Type} (tw : list (Z * Z)) (r : res A) : res A := if intact tw then r else Unmodelled.
+
+(* s.Has(t): `_, ok := s[t]; return ok` — looks up t itself and returns ok itself *)
+Definition has_tw : list (Z * Z) := [(has_index 7, 7); (b2z (has_ret true), 1); (b2z (has_ret false), 0)].
+(* s.add(items): ranges over items, stores item, consults no length, deletes nothing *)
+Definition addh_tw : list (Z * Z) := [(addh_shape, 0xe3e5f4f); (addh_range 7, 7); (addh_index 7, 7); (addh_ncalls_len, 0); (addh_ncalls_delete, 0)].
+(* New: make(Set[T], len(items)) then m.add(items) *)
+Definition new_tw : list (Z * Z) := [(new_make_hint 7, 7); (new_ncalls_add, 1); (new_add_arg 7, 7); (new_ncalls_len, 1)] ++ addh_tw.
+Definition newsize_tw : list (Z * Z) := [].
+Definition isempty_tw : list (Z * Z) := [(isempty_ncalls_len, 1)].
+Definition len_tw : list (Z * Z) := [(len_ncalls_len, 1)].
+Definition clear_tw : list (Z * Z) := [(clear_shape, 0xe64f); (clear_arg 7, 7)].
+Definition clone_tw : list (Z * Z) := [(clone_mapsclone_arg 7, 7)].
+Definition add_tw : list (Z * Z) := [(add_shape, 0xe1e5f4f); (add_ncalls_add, 1); (add_add_arg 7, 7)] ++ addh_tw.
+(* AddAll: ranges over t, stores item into *s, consults no length, deletes nothing *)
+Definition addall_tw : list (Z * Z) := [(addall_shape, 0xe1e54f3e5f4f); (addall_range 7 8, 8); (addall_index 7, 7); (addall_ncalls_len, 0); (addall_ncalls_delete, 0)] ++ clone_tw.
+(* Remove: ranges over items, delete(s, item), one len (the break test) *)
+Definition remove_tw : list (Z * Z) := [(remove_shape, 0xe3e1e7f6f4f); (remove_range 7 8, 8); (remove_delete_map 7 8, 7); (remove_delete_key 7 8, 8); (remove_ncalls_len, 1)].
+Definition removeall_tw : list (Z * Z) := [(removeall_shape, 0xe3e1e7f6f4f); (removeall_range 7 8, 8); (removeall_delete_map 7 8 9, 7); (removeall_delete_key 7 8 9, 9); (removeall_ncalls_len, 1)].
+(* Pop: ranges over s, delete(s, item), consults NO length (nothing guards the delete) *)
+Definition pop_tw : list (Z * Z) := [(pop_shape, 0xe3e64f94f); (pop_range 7, 7); (pop_delete_map 7 8, 7); (pop_delete_key 7 8, 8); (pop_ncalls_len, 0)].
+(* Intersects: lo, hi := s, t; lo, hi = hi, lo; range lo; hi.Has(item) *)
+Definition intersects_tw : list (Z * Z) :=
+  [(intersects_lo0 7 8, 7); (intersects_hi0 7 8, 8); (intersects_lo1 7 8, 8); (intersects_hi1 7 8, 7); (intersects_range 7 8, 7); (intersects_has_arg 7, 7)] ++ has_tw.
+Definition hasall_tw : list (Z * Z) := [(hasall_range 7, 7); (hasall_has_arg 7, 7)] ++ has_tw.
+Definition hasany_tw : list (Z * Z) := [(hasany_range 7, 7); (hasany_has_arg 7, 7)] ++ has_tw.
+Definition issubset_tw : list (Z * Z) := [(issubset_range 7 8, 7); (issubset_has_arg 7, 7)] ++ has_tw.
+Definition equals_tw : list (Z * Z) := [(equals_range 7 8, 7); (equals_has_arg 7, 7)] ++ has_tw.
+(* Append: ranges over s; vs = append(vs, item) *)
+Definition append_tw : list (Z * Z) := [(append_range 7 8, 7); (append_assign 7, 7); (append_arg_slice 7 8, 7); (append_arg_item 7 8, 8)].
+(* Slice: s.Append(make([]T, 0, len(s))) *)
+Definition slice_tw : list (Z * Z) := [(slice_append_arg 7, 7); (slice_buf_cap 7, 7)] ++ append_tw.
+(* Intersect: min := ss[0]; range ss[1:] { min = s }; two makes (one per path); range min; range ss; s.Has(v); out.Add(v) *)
+Definition intersect_tw : list (Z * Z) :=
+  [(intersect_ncalls_make, 2); (intersect_min0 7, 7); (intersect_min1 7 8, 7); (intersect_range_scan 7, 7); (intersect_range_min 7 8, 7);
+   (intersect_range_all 7 8, 8); (intersect_has_arg 7, 7); (intersect_add_arg 7, 7)] ++ has_tw.
+Definition range_tw : list (Z * Z) := [(range_range 7, 7); (range_add_arg 7, 7)].
+Definition keys_tw : list (Z * Z) := [(keys_range 7, 7); (keys_add_arg 7 8, 7)].
+Definition values_tw : list (Z * Z) := [(values_range 7, 7); (values_add_arg 7 8, 8)].
 
 Section Mapset.
 Variable T : Type.
 Variable eqb : T -> T -> bool.     (* Go's == on the comparable element type *)
 Variable zero : T.                 (* the zero value of T *)
 
-Definition gomap := option (list T).
-Definition goslice := option (list T).    (* None = nil slice *)
+Definition gomap := option (positive * list T).   (* None = nil; Some (address, keys) *)
+Definition goslice := option (list T).            (* None = nil slice *)
 
 Definition mem (x : T) (l : list T) : bool := existsb (eqb x) l.
 Fixpoint nodupb (l : list T) : bool :=
   match l with [] => true | x :: r => negb (mem x r) && nodupb r end.
 
 (* ---- the built-in map operations *)
-Definition m_make : gomap := Some [].
-Definition m_keys (m : gomap) : list T := match m with None => [] | Some l => l end.
+Definition m_make (p : positive) : gomap := Some (p, []).                   (* make(Set[T], hint) at the fresh address p *)
+Definition m_keys (m : gomap) : list T := match m with None => [] | Some (_, l) => l end.
 Definition m_len (m : gomap) : Z := Z.of_nat (length (m_keys m)).
 Definition nil_ptr : Z := 0.
-Definition m_ptr (m : gomap) : Z := match m with None => nil_ptr | Some _ => 1 end.
+Definition m_ptr (m : gomap) : Z := match m with None => nil_ptr | Some (p, _) => Zpos p end.
 Definition m_get (m : gomap) (x : T) : bool := mem x (m_keys m).          (* _, ok := m[x] *)
 Definition m_set (m : gomap) (x : T) : res gomap :=                          (* m[x] = struct{}{} *)
   match m with
   | None => PanicNilMap
-  | Some l => Ok (Some (if mem x l then l else l ++ [x]))
+  | Some (p, l) => Ok (Some (p, if mem x l then l else l ++ [x]))
   end.
 Definition m_delete (m : gomap) (x : T) : gomap :=                           (* delete(m, x) *)
-  match m with None => None | Some l => Some (filter (fun y => negb (eqb x y)) l) end.
+  match m with None => None | Some (p, l) => Some (p, filter (fun y => negb (eqb x y)) l) end.
 Definition m_clear (m : gomap) : gomap :=                                    (* clear(m) *)
-  match m with None => None | Some _ => Some [] end.
-Definition maps_clone (m : gomap) : gomap := m.    (* maps.Clone: nil for nil, else a fresh map with the same keys *)
+  match m with None => None | Some (p, _) => Some (p, []) end.
+(* maps.Clone: nil for nil, else a new map (at the fresh address p) with the same keys *)
+Definition maps_clone (p : positive) (m : gomap) : gomap :=
+  match m with None => None | Some (_, l) => Some (p, l) end.
+(* do two map values denote the same allocated map? *)
+Definition same_map (s t : gomap) : bool := negb (Z.eqb (m_ptr s) nil_ptr) && Z.eqb (m_ptr s) (m_ptr t).
 
 Definition valid_order (ord : list T) (m : gomap) : bool :=
   Nat.eqb (length ord) (length (m_keys m)) && nodupb ord && forallb (m_get m) ord.
@@ -68,37 +152,53 @@ Definition m_range {A : Type} (m : gomap) (ord : list T) (body : list T -> res A
 Definition sl_elems (s : goslice) : list T := match s with None => [] | Some l => l end.
 Definition sl_append (s : goslice) (x : T) : goslice := Some (sl_elems s ++ [x]).
 
+(* func (s Set[T]) Has(t T) bool { _, ok := s[t]; return ok } — as called by the other methods *)
+Definition Has_raw (s : gomap) (t : T) : bool := has_ret (m_get s t).
+Definition Has (s : gomap) (t : T) : res bool := guarded has_tw (Ok (Has_raw s t)).
+
 (* ---- func (s Set[T]) add(items []T) Set[T] *)
 Fixpoint add_loop (s : gomap) (items : list T) : res gomap :=
   match items with
   | [] => Ok s
   | item :: r => bind (m_set s item) (fun s' => add_loop s' r)
   end.
+Definition add_helper (s : gomap) (items : list T) : res gomap :=
+  bind (add_loop s items) (fun s' => ret1 addh_ret (Ok s')).                 (* return s *)
 
 (* func New(items ...T): m := make(Set[T], len(items)); return m.add(items) *)
-Definition New (items : list T) : res gomap := add_loop m_make items.
-(* func NewSize(n int) (n >= 0: a capacity hint) *)
-Definition NewSize (n : Z) : gomap := m_make.
+Definition New (fresh : positive) (items : list T) : res gomap :=
+  guarded new_tw (ret1 new_ret (add_helper (called new_ncalls_make (m_make fresh) None) items)).
+(* func NewSize(n int): return make(Set[T], n); n is only a capacity hint (negative: no panic, as the runtime treats it as 0) *)
+Definition NewSize (fresh : positive) (n : Z) : res gomap :=
+  guarded newsize_tw (ret1 newsize_ret (Ok (called newsize_ncalls_make (m_make fresh) None))).
 
-Definition IsEmpty (s : gomap) : bool := isempty_ret (m_len s).
-Definition Len (s : gomap) : Z := len_ret (m_len s).
-Definition Clear (s : gomap) : gomap := called clear_ncalls_clear (m_clear s) s.
+Definition IsEmpty (s : gomap) : res bool := guarded isempty_tw (Ok (isempty_ret (m_len s))).
+Definition Len (s : gomap) : res Z := guarded len_tw (Ok (len_ret (m_len s))).
+(* clear(s); return s *)
+Definition Clear (s : gomap) : res gomap :=
+  guarded clear_tw (ret1 clear_ret (Ok (called clear_ncalls_clear (m_clear s) s))).
 
-Definition Clone (s : gomap) : gomap :=
-  if clone_nil (m_ptr s) nil_ptr then called clone_ncalls_make m_make None
-  else called clone_ncalls_mapsclone (maps_clone s) None.
-
-Definition Has (s : gomap) (t : T) : bool := m_get s t.
+(* if s == nil { return make(Set[T]) }; return maps.Clone(s) *)
+Definition Clone (s : gomap) (fresh : positive) : res gomap :=
+  guarded clone_tw (
+    let made := Ok (called clone_ncalls_make (m_make fresh) None) in
+    let cloned := Ok (called clone_ncalls_mapsclone (maps_clone fresh s) None) in
+    if clone_nil (m_ptr s) nil_ptr then ret2 clone_ret_nil made cloned else ret2 clone_ret made cloned).
 
 (* func (s *Set[T]) Add(items ...T): the result is both the new *s and the value returned *)
-Definition Add (s : gomap) (items : list T) : res gomap :=
-  let s1 := if add_nil (m_ptr s) nil_ptr then called add_ncalls_make m_make s else s in
-  add_loop s1 items.
+Definition Add (s : gomap) (fresh : positive) (items : list T) : res gomap :=
+  guarded add_tw (
+    bind (if add_nil (m_ptr s) nil_ptr then ret1 add_assign (Ok (called add_ncalls_make (m_make fresh) None)) else Ok s) (fun s1 =>
+    ret1 add_ret (add_helper s1 items))).
 
-(* func (s *Set[T]) AddAll(t Set[T]); ord: order of `range t` *)
-Definition AddAll (s t : gomap) (ord : list T) : res gomap :=
-  if addall_nil (m_ptr s) nil_ptr then Ok (called addall_ncalls_clone (Clone t) t)
-  else m_range t ord (fun items => add_loop s items).
+(* func (s *Set[T]) AddAll(t Set[T]); ord: order of `range t`.  With s and t the same map every
+   item is already a key, so the loop creates no entry and the map ranged over does not change. *)
+Definition AddAll (s t : gomap) (fresh : positive) (ord : list T) : res gomap :=
+  guarded addall_tw (
+    if addall_nil (m_ptr s) nil_ptr then
+      bind (ret2 addall_assign (Clone t fresh) (Ok t)) (fun s1 =>      (* *s = t.Clone() *)
+      ret2 addall_ret_nil (Ok s1) (Ok t))                               (* return *s *)
+    else m_range t ord (fun items => bind (add_loop s items) (fun s' => ret2 addall_ret (Ok s') (Ok t)))).
 
 Fixpoint remove_loop (s : gomap) (items : list T) : gomap :=
   match items with
@@ -107,72 +207,80 @@ Fixpoint remove_loop (s : gomap) (items : list T) : gomap :=
     if remove_break (m_len s) then s
     else remove_loop (called remove_ncalls_delete (m_delete s item) s) r
   end.
-Definition Remove (s : gomap) (items : list T) : gomap := remove_loop s items.
+Definition Remove (s : gomap) (items : list T) : res gomap :=
+  guarded remove_tw (ret1 remove_ret (Ok (remove_loop s items))).
 
-Fixpoint removeall_loop (s : gomap) (items : list T) : gomap :=
+(* for item := range t { if len(s) == 0 { break }; delete(s, item) }.  [alias]: s and t are the
+   same map, so t shrinks while it is ranged over; Go: an entry removed before the iteration
+   reaches it is not produced. *)
+Fixpoint removeall_loop (alias : bool) (s : gomap) (items : list T) : gomap :=
   match items with
   | [] => s
   | item :: r =>
-    if removeall_break (m_len s) then s
-    else removeall_loop (called removeall_ncalls_delete (m_delete s item) s) r
+    if alias && negb (m_get s item) then removeall_loop alias s r
+    else if removeall_break (m_len s) then s
+    else removeall_loop alias (called removeall_ncalls_delete (m_delete s item) s) r
   end.
 Definition RemoveAll (s t : gomap) (ord : list T) : res gomap :=
-  m_range t ord (fun items => Ok (removeall_loop s items)).
+  guarded removeall_tw (m_range t ord (fun items => ret2 removeall_ret (Ok (removeall_loop (same_map s t) s items)) (Ok t))).
 
 (* Pop: the first element of the runtime's order is deleted and returned *)
 Definition Pop (s : gomap) (ord : list T) : res (gomap * T) :=
-  m_range s ord (fun items =>
+  guarded pop_tw (m_range s ord (fun items =>
     match items with
-    | item :: _ => Ok (called pop_ncalls_delete (m_delete s item) s, item)
-    | [] => Ok (s, zero)
-    end).
+    | item :: _ => bind (ret2 pop_ret_found (Ok item) (Ok zero)) (fun x => Ok (called pop_ncalls_delete (m_delete s item) s, x))
+    | [] => bind (ret2 pop_ret_empty Unmodelled (Ok zero)) (fun x => Ok (s, x))
+    end)).
 
 Fixpoint intersects_loop (hi : gomap) (items : list T) : bool :=
   match items with
   | [] => intersects_end_ret
-  | item :: r => if intersects_hit (Has hi item) then intersects_hit_ret else intersects_loop hi r
+  | item :: r => if intersects_hit (Has_raw hi item) then intersects_hit_ret else intersects_loop hi r
   end.
 (* lo, hi := s, t; if len(s) > len(t) { lo, hi = hi, lo } *)
 Definition intersects_operands (s t : gomap) : gomap * gomap :=
   if intersects_swap (m_len s) (m_len t) then (t, s) else (s, t).
 Definition Intersects (s t : gomap) (ord : list T) : res bool :=
-  let '(lo, hi) := intersects_operands s t in
-  m_range lo ord (fun items => Ok (intersects_loop hi items)).
+  guarded intersects_tw (
+    let '(lo, hi) := intersects_operands s t in
+    m_range lo ord (fun items => Ok (intersects_loop hi items))).
 
 Fixpoint hasall_loop (s : gomap) (ts : list T) : bool :=
   match ts with
   | [] => hasall_end_ret
-  | t :: r => if hasall_miss (Has s t) then hasall_miss_ret else hasall_loop s r
+  | t :: r => if hasall_miss (Has_raw s t) then hasall_miss_ret else hasall_loop s r
   end.
-Definition HasAll (s : gomap) (ts : list T) : bool :=
-  if hasall_empty (m_len s) then hasall_empty_ret (Z.of_nat (length ts)) else hasall_loop s ts.
+Definition HasAll (s : gomap) (ts : list T) : res bool :=
+  guarded hasall_tw (Ok (if hasall_empty (m_len s) then hasall_empty_ret (Z.of_nat (length ts)) else hasall_loop s ts)).
 
 Fixpoint hasany_loop (s : gomap) (ts : list T) : bool :=
   match ts with
   | [] => hasany_end_ret
-  | t :: r => if hasany_hit (Has s t) then hasany_hit_ret else hasany_loop s r
+  | t :: r => if hasany_hit (Has_raw s t) then hasany_hit_ret else hasany_loop s r
   end.
-Definition HasAny (s : gomap) (ts : list T) : bool :=
-  if hasany_empty (m_len s) then hasany_empty_ret else hasany_loop s ts.
+Definition HasAny (s : gomap) (ts : list T) : res bool :=
+  guarded hasany_tw (Ok (if hasany_empty (m_len s) then hasany_empty_ret else hasany_loop s ts)).
 
 Fixpoint issubset_loop (t : gomap) (items : list T) : bool :=
   match items with
   | [] => issubset_end_ret
-  | item :: r => if issubset_miss (Has t item) then issubset_miss_ret else issubset_loop t r
+  | item :: r => if issubset_miss (Has_raw t item) then issubset_miss_ret else issubset_loop t r
   end.
 Definition IsSubset (s t : gomap) (ord : list T) : res bool :=
-  if issubset_empty (m_len s) then Ok issubset_empty_ret
-  else if issubset_bigger (m_len s) (m_len t) then Ok issubset_bigger_ret
-  else m_range s ord (fun items => Ok (issubset_loop t items)).
+  guarded issubset_tw (
+    if issubset_empty (m_len s) then Ok issubset_empty_ret
+    else if issubset_bigger (m_len s) (m_len t) then Ok issubset_bigger_ret
+    else m_range s ord (fun items => Ok (issubset_loop t items))).
 
 Fixpoint equals_loop (t : gomap) (items : list T) : bool :=
   match items with
   | [] => equals_end_ret
-  | item :: r => if equals_miss (Has t item) then equals_miss_ret else equals_loop t r
+  | item :: r => if equals_miss (Has_raw t item) then equals_miss_ret else equals_loop t r
   end.
 Definition Equals (s t : gomap) (ord : list T) : res bool :=
-  if equals_len_ne (m_len s) (m_len t) then Ok equals_len_ne_ret
-  else m_range s ord (fun items => Ok (equals_loop t items)).
+  guarded equals_tw (
+    if equals_len_ne (m_len s) (m_len t) then Ok equals_len_ne_ret
+    else m_range s ord (fun items => Ok (equals_loop t items))).
 
 Fixpoint append_loop (vs : goslice) (items : list T) : goslice :=
   match items with
@@ -180,11 +288,13 @@ Fixpoint append_loop (vs : goslice) (items : list T) : goslice :=
   | item :: r => append_loop (called append_ncalls_append (sl_append vs item) vs) r
   end.
 Definition Append (s : gomap) (vs : goslice) (ord : list T) : res goslice :=
-  if append_empty (m_len s) then Ok vs
-  else m_range s ord (fun items => Ok (append_loop vs items)).
+  guarded append_tw (
+    if append_empty (m_len s) then ret2 append_ret_empty Unmodelled (Ok vs)
+    else m_range s ord (fun items => ret2 append_ret Unmodelled (Ok (append_loop vs items)))).
 Definition Slice (s : gomap) (ord : list T) : res goslice :=
-  if slice_empty (m_len s) then Ok None
-  else Append s (Some (repeat zero (Z.to_nat slice_buf_len))) ord.
+  guarded slice_tw (
+    if slice_empty (m_len s) then ret1 slice_ret_empty (Ok None)
+    else ret1 slice_ret (Append s (Some (repeat zero (Z.to_nat slice_buf_len))) ord)).
 
 (* func Intersect(ss ...Set[T]); ord: order of `range min` *)
 Fixpoint intersect_min (min : gomap) (rest : list gomap) : gomap :=
@@ -195,15 +305,15 @@ Fixpoint intersect_min (min : gomap) (rest : list gomap) : gomap :=
 Fixpoint intersect_inner (ss : list gomap) (v : T) : bool :=   (* false = continue nextElt *)
   match ss with
   | [] => true
-  | s :: r => if intersect_miss (Has s v) then false else intersect_inner r v
+  | s :: r => if intersect_miss (Has_raw s v) then false else intersect_inner r v
   end.
-Fixpoint intersect_loop (ss : list gomap) (items : list T) (out : gomap) : res gomap :=
+Fixpoint intersect_loop (ss : list gomap) (items : list T) (out : gomap) (fresh : positive) : res gomap :=
   match items with
   | [] => Ok out
   | v :: r =>
     if intersect_inner ss v
-    then bind (called intersect_ncalls_add (Add out [v]) (Ok out)) (fun out' => intersect_loop ss r out')
-    else intersect_loop ss r out
+    then bind (called intersect_ncalls_add (Add out fresh [v]) (Ok out)) (fun out' => intersect_loop ss r out' fresh)
+    else intersect_loop ss r out fresh
   end.
 (* min := ss[0]; for _, s := range ss[1:] { if len(s) < len(min) { min = s } } *)
 Definition intersect_operand (ss : list gomap) : res gomap :=
@@ -213,27 +323,48 @@ Definition intersect_operand (ss : list gomap) : res gomap :=
     if Z.gtb intersect_rest_lo (Z.of_nat (length ss)) then PanicIndex
     else Ok (intersect_min min0 (skipn (Z.to_nat intersect_rest_lo) ss))
   end.
-Definition Intersect (ss : list gomap) (ord : list T) : res gomap :=
-  if intersect_noargs (Z.of_nat (length ss)) then Ok m_make
-  else bind (intersect_operand ss) (fun min =>
-    m_range min ord (fun items => intersect_loop ss items m_make)).
+Definition Intersect (ss : list gomap) (fresh : positive) (ord : list T) : res gomap :=
+  guarded intersect_tw (
+    if intersect_noargs (Z.of_nat (length ss)) then ret1 intersect_ret_noargs (Ok (m_make fresh))
+    else bind (intersect_operand ss) (fun min =>
+      m_range min ord (fun items =>
+        bind (intersect_loop ss items (m_make fresh) (Pos.succ fresh)) (fun out =>     (* out := make(Set[T], len(min)) *)
+        ret2 intersect_ret (Ok out) (Ok min))))).
 
-(* Range / Keys / Values: out := make(Set); for v := range <sequence> { out.Add(v) }.  The
-   argument is the sequence in the order it is produced (for Keys/Values: the keys resp. values
-   of the argument map in the runtime's order — an input here, so every order is covered by
-   quantifying over the list). *)
-Fixpoint collect_loop (ncalls : Z) (out : gomap) (items : list T) : res gomap :=
+(* Range / Keys / Values: out := make(Set); for v := range <sequence> { out.Add(v) }; return out.
+   The argument is the sequence in the order it is produced (for Keys/Values: the keys resp.
+   values of the argument map in the runtime's order — an input here, so every order is covered
+   by quantifying over the list; a nil map is the empty sequence).  Range's argument is a
+   function value: None = the nil function, whose call panics. *)
+Fixpoint collect_loop (ncalls : Z) (out : gomap) (fresh : positive) (items : list T) : res gomap :=
   match items with
   | [] => Ok out
-  | v :: r => bind (called ncalls (Add out [v]) (Ok out)) (fun out' => collect_loop ncalls out' r)
+  | v :: r => bind (called ncalls (Add out fresh [v]) (Ok out)) (fun out' => collect_loop ncalls out' fresh r)
   end.
-Definition Range (items : list T) : res gomap := collect_loop range_ncalls_add m_make items.
-Definition Keys (keys : list T) : res gomap := collect_loop keys_ncalls_add m_make keys.
-Definition Values (vals : list T) : res gomap := collect_loop values_ncalls_add m_make vals.
+Definition Range (it : option (list T)) (fresh : positive) : res gomap :=
+  guarded range_tw (
+    match it with
+    | None => PanicNilFunc
+    | Some items =>
+      bind (collect_loop range_ncalls_add (called range_ncalls_make (m_make fresh) None) (Pos.succ fresh) items) (fun out =>
+      ret1 range_ret (Ok out))
+    end).
+Definition Keys (keys : list T) (fresh : positive) : res gomap :=
+  guarded keys_tw (
+    bind (collect_loop keys_ncalls_add (called keys_ncalls_make (m_make fresh) None) (Pos.succ fresh) keys) (fun out =>
+    ret1 keys_ret (Ok out))).
+Definition Values (vals : list T) (fresh : positive) : res gomap :=
+  guarded values_tw (
+    bind (collect_loop values_ncalls_add (called values_ncalls_make (m_make fresh) None) (Pos.succ fresh) vals) (fun out =>
+    ret1 values_ret (Ok out))).
 
-(* ---- histories over several named set variables (all nil initially) *)
+(* ---- histories over several named set variables (all nil initially).  [next] is the
+   allocator's frontier: every address handed out so far is below it; one operation uses at most
+   the addresses next and next+1. *)
 Definition store := nat -> gomap.
 Definition store0 : store := fun _ => None.
+Definition next0 : positive := 1%positive.
+Definition bump (next : positive) : positive := (next + 2)%positive.
 Definition upd (st : store) (i : nat) (m : gomap) : store :=
   fun k => if Nat.eqb k i then m else st k.
 
@@ -249,7 +380,7 @@ Inductive op : Type :=
 | OClear (i : nat)
 | OClone (i j : nat)                         (* v_i = v_j.Clone() *)
 | OIntersect (i : nat) (js : list nat) (ord : list T)   (* v_i = Intersect(v_j1, v_j2, …) *)
-| ORange (i : nat) (items : list T)
+| ORange (i : nat) (it : option (list T))    (* v_i = Range(it); None: it is the nil function *)
 | OKeys (i : nat) (keys : list T)
 | OValues (i : nat) (vals : list T)
 | OHas (i : nat) (x : T)
@@ -271,10 +402,16 @@ Inductive out : Type :=
 | RSlice (s : goslice)
 | RPanicNilMap
 | RPanicIndex
-| RBadOrder.
+| RPanicNilFunc
+| RBadOrder
+| RUnmodelled.
 
 Definition fail_out {A : Type} (r : res A) : out :=
-  match r with Ok _ => RPanicIndex | PanicNilMap => RPanicNilMap | PanicIndex => RPanicIndex | BadOrder => RBadOrder end.
+  match r with
+  | Ok _ => RUnmodelled
+  | PanicNilMap => RPanicNilMap | PanicIndex => RPanicIndex | PanicNilFunc => RPanicNilFunc
+  | BadOrder => RBadOrder | Unmodelled => RUnmodelled
+  end.
 
 (* a call that stores its result in v_i *)
 Definition assign (st : store) (i : nat) (r : res gomap) : store * out :=
@@ -282,31 +419,31 @@ Definition assign (st : store) (i : nat) (r : res gomap) : store * out :=
 Definition observe {A : Type} (st : store) (r : res A) (f : A -> out) : store * out :=
   match r with Ok a => (st, f a) | _ => (st, fail_out r) end.
 
-Definition step (st : store) (o : op) : store * out :=
+Definition step (st : store) (next : positive) (o : op) : store * out :=
   match o with
-  | ONew i items => assign st i (New items)
-  | ONewSize i n => assign st i (Ok (NewSize n))
+  | ONew i items => assign st i (New next items)
+  | ONewSize i n => assign st i (NewSize next n)
   | ONil i => assign st i (Ok None)
-  | OAdd i items => assign st i (Add (st i) items)
-  | OAddAll i j ord => assign st i (AddAll (st i) (st j) ord)
-  | ORemove i items => assign st i (Ok (Remove (st i) items))
+  | OAdd i items => assign st i (Add (st i) next items)
+  | OAddAll i j ord => assign st i (AddAll (st i) (st j) next ord)
+  | ORemove i items => assign st i (Remove (st i) items)
   | ORemoveAll i j ord => assign st i (RemoveAll (st i) (st j) ord)
   | OPop i ord =>
     match Pop (st i) ord with
     | Ok (s', x) => (upd st i s', RElem x)
     | r => (st, fail_out r)
     end
-  | OClear i => assign st i (Ok (Clear (st i)))
-  | OClone i j => assign st i (Ok (Clone (st j)))
-  | OIntersect i js ord => assign st i (Intersect (map st js) ord)
-  | ORange i items => assign st i (Range items)
-  | OKeys i keys => assign st i (Keys keys)
-  | OValues i vals => assign st i (Values vals)
-  | OHas i x => (st, RBool (Has (st i) x))
-  | OHasAll i ts => (st, RBool (HasAll (st i) ts))
-  | OHasAny i ts => (st, RBool (HasAny (st i) ts))
-  | OLen i => (st, RInt (Len (st i)))
-  | OIsEmpty i => (st, RBool (IsEmpty (st i)))
+  | OClear i => assign st i (Clear (st i))
+  | OClone i j => assign st i (Clone (st j) next)
+  | OIntersect i js ord => assign st i (Intersect (map st js) next ord)
+  | ORange i it => assign st i (Range it next)
+  | OKeys i keys => assign st i (Keys keys next)
+  | OValues i vals => assign st i (Values vals next)
+  | OHas i x => observe st (Has (st i) x) RBool
+  | OHasAll i ts => observe st (HasAll (st i) ts) RBool
+  | OHasAny i ts => observe st (HasAny (st i) ts) RBool
+  | OLen i => observe st (Len (st i)) RInt
+  | OIsEmpty i => observe st (IsEmpty (st i)) RBool
   | OIntersects i j ord => observe st (Intersects (st i) (st j) ord) RBool
   | OIsSubset i j ord => observe st (IsSubset (st i) (st j) ord) RBool
   | OEquals i j ord => observe st (Equals (st i) (st j) ord) RBool
@@ -314,17 +451,17 @@ Definition step (st : store) (o : op) : store * out :=
   | OAppend i vs ord => observe st (Append (st i) vs ord) RSlice
   end.
 
-Fixpoint run (st : store) (ops : list op) : store * list out :=
+Fixpoint run (st : store) (next : positive) (ops : list op) : store * list out :=
   match ops with
   | [] => (st, [])
-  | o :: r => let '(st1, x) := step st o in let '(st2, xs) := run st1 r in (st2, x :: xs)
+  | o :: r => let '(st1, x) := step st next o in let '(st2, xs) := run st1 (bump next) r in (st2, x :: xs)
   end.
 
 (* the same, also returning the store after every step (what the harness dumps) *)
-Fixpoint run_trace (st : store) (ops : list op) : list (out * store) :=
+Fixpoint run_trace (st : store) (next : positive) (ops : list op) : list (out * store) :=
   match ops with
   | [] => []
-  | o :: r => let '(st1, x) := step st o in (x, st1) :: run_trace st1 r
+  | o :: r => let '(st1, x) := step st next o in (x, st1) :: run_trace st1 (bump next) r
   end.
 
 End Mapset.
